@@ -1,4 +1,5 @@
 import CqlVerif.Lemmas.Parser
+import CqlVerif.Lemmas.ParserSound
 import CqlVerif.Model.Lexer
 /-!
 # C06 — The idempotency classifier is sound, case/whitespace-stable and total
@@ -47,5 +48,32 @@ theorem if_clause_not_idempotent (L : Lexer) (fuel : Nat) (s : LS) (t : Nat) (h 
 qualified by `system` (quoted or not); a user keyspace's function of the same name is not -/
 example : isNonIdempotentFunc { text := [78, 111, 87] } = true ∧ isNonIdempotentFunc { text := [117, 117, 105, 100], ignoreCase := false } = true ∧
     isNonIdempotentFunc { text := [110, 111, 119, 120] } = false := by decide
+
+/-- **no_verdict_dropped** — for every token stream (i.e. every input) and every amount of fuel: if
+the classifier answers "idempotent", then no function term it parsed anywhere in the statement —
+VALUES, list / set / map / UDT / tuple literals at any depth (map keys *and* values), casts,
+function arguments, WHERE relations, IN lists, SET operations, DELETE selectors, and every child of
+a batch — was a call of the system's `now()` / `uuid()`.  (`sawNonIdem` is a ghost flag of the model
+that `termFunc` raises on such a call and nothing reads; `classifyS` is `classify` with the final
+scanner state exposed, `classifyS_fst`.) -/
+theorem no_verdict_dropped (L : Lexer) (fuel : Nat) (h : (classify L fuel).idem = true) :
+    (classifyS L fuel).2.sawNonIdem = false := classify_sound_flag L fuel h
+
+/-- a token stream given explicitly (kind, identifier text) -/
+def lexerOfTokens (ts : List (Nat × List Nat)) : Lexer := fun p =>
+  match ts[p]? with
+  | some (k, txt) => { kind := k, stop := p + 1, id := { text := txt } }
+  | none => { kind := tkEOF, stop := p, id := {} }
+
+/-- non-vacuity: `INSERT INTO t (a) VALUES (1, {'k': NoW()})` raises the flag and is classified
+"not idempotent"; the same statement with `f()` is idempotent and leaves the flag down -/
+example :
+    let stmt (fn : List Nat) : List (Nat × List Nat) :=
+      [(tkInsert, []), (tkInto, []), (tkIdentifier, [116]), (tkLparen, []), (tkIdentifier, [97]), (tkRparen, []),
+       (tkIdentifier, [118, 97, 108, 117, 101, 115]), (tkLparen, []), (tkInteger, []), (tkComma, []), (tkLcurly, []),
+       (tkStringLiteral, []), (tkColon, []), (tkIdentifier, fn), (tkLparen, []), (tkRparen, []), (tkRcurly, []), (tkRparen, [])]
+    (classifyS (lexerOfTokens (stmt [78, 111, 87])) 60).2.sawNonIdem = true ∧ (classify (lexerOfTokens (stmt [78, 111, 87])) 60).idem = false ∧
+    (classifyS (lexerOfTokens (stmt [102])) 60).2.sawNonIdem = false ∧ (classify (lexerOfTokens (stmt [102])) 60).idem = true := by
+  decide +kernel
 
 end CqlVerif.C06
